@@ -992,8 +992,13 @@ func (fr *Frame) builtin(b *ssa.Builtin, cc *ssa.CallCommon, args []Val, st *Sta
 		case *types.Slice:
 			return tv(mk(SInt, "(s.len "+x.T.S+")")), nil
 		case *types.Map:
-			_, _, cn := c.mapNames(u)
-			return tv(tIte(tEq(x.T, intLit(0)), intLit(0), tSelect(c.heapGet(st, cn), x.T))), nil
+			dn, _, cn := c.mapNames(u)
+			card := tSelect(c.heapGet(st, cn), x.T)
+			// a map whose length is zero has no keys (the only link between the cardinality and the domain the model knows)
+			ks := c.mapKeySort(u)
+			c.assumeG(g, mk(SBool, fmt.Sprintf("(=> (= %s 0) (= %s ((as const (Array %s Bool)) false)))", card.S, tSelect(c.heapGet(st, dn), x.T).S, ks)))
+			c.assumeG(g, tGe(card, intLit(0)))
+			return tv(tIte(tEq(x.T, intLit(0)), intLit(0), card)), nil
 		case *types.Basic:
 			return tv(app(SInt, "gstr.len", x.T)), nil
 		case *types.Array:
